@@ -268,8 +268,20 @@ func Errno(err error) syscall.Errno {
 // Lookup resolves name; ENOENT if absent.
 func (n *Node) Lookup(name string) (fs.Node, error) {
 	var node fs.Node
-	err := n.call(func() (e error) { node, e = n.Root.Lookup(bg, name); return })
-	return node, err
+	err := n.call(func() (e error) {
+		if node, e = n.Root.Lookup(bg, name); e != nil {
+			return e
+		}
+		// like the FUSE server, which fills the entry's attributes right after a
+		// successful Lookup and fails the whole lookup if that fails (a cached
+		// node whose file is gone answers ENOENT there)
+		var a bfuse.Attr
+		return node.Attr(bg, &a)
+	})
+	if err != nil {
+		return nil, err
+	}
+	return node, nil
 }
 
 // Open opens an existing file.
@@ -288,6 +300,11 @@ func (n *Node) Open(name string) (*File, error) {
 		h, e = op.Open(bg, &bfuse.OpenRequest{Flags: bfuse.OpenReadWrite}, resp)
 		return
 	})
+	if Errno(err) == syscall.ESTALE {
+		// the VFS looks the name up again after ESTALE; the driver keeps no
+		// entries of its own, so the lookup above already was that fresh lookup
+		return nil, syscall.ENOENT
+	}
 	if err != nil {
 		return nil, err
 	}
